@@ -72,8 +72,8 @@ func init() {
 		}
 	}
 	c08 := []string{"srv-req-read-close", "srv-req-close", "srv-req-close-smallpipe", "srv-two-seq", "srv-pipelined", "srv-panics", "srv-half-then-close",
-		"srv-4bytes-then-close", "srv-garbage", "srv-undecodable", "srv-toobig", "srv-req-then-garbage", "srv-slow-close", "srv-halfclose"}
-	c08multi := []string{"srv-2conn-good-bad", "srv-2conn-good-abrupt", "srv-3conn"}
+		"srv-4bytes-then-close", "srv-garbage", "srv-undecodable", "srv-toobig", "srv-req-then-garbage", "srv-slow-close", "srv-halfclose", "srv-3pipelined-close"}
+	c08multi := []string{"srv-2conn-good-bad", "srv-2conn-good-abrupt", "srv-3conn", "srv-4pipelined-read1-close"}
 	plans["C08"] = Plan{
 		Level: "model_checking",
 		Rule: "all schedules (thread interleavings, select choices, timer firings) of the real kmipserver code under scripted client connections, " +
@@ -125,9 +125,11 @@ func init() {
 			"directly on one BatchExecutor and through two real server connections. distinct = distinct (scenario, outcome) classes. " + boundingNote,
 		Assumptions: []string{netAssumption, fifoAssumption, "placeholder accesses are declared to the scheduler as conflicting accesses so that the state cache cannot merge their orders"},
 		Keep:        hasPrefix("fail:placeholder", "panic:"),
-		Quick: cat(pb(100, B{{0, 0}}, "ph-seq-exhaustive-t"), pb(100, B{{2, 0}, {8, 0}}, "ph-conc-2", "ph-conc-2-fail"), pb(100, B{{2, 0}, {4, 0}}, "ph-conc-3"),
+		Quick: cat(pb(100, B{{0, 0}}, "ph-seq-exhaustive-t"), pb(100, B{{2, 0}, {8, 0}}, "ph-conc-2", "ph-conc-2-fail", "ph-conc-2-after-undo", "ph-conc-2-after-count", "ph-conc-2-after-version",
+			"ph-conc-2-after-faileditem", "ph-conc-2-after-panic", "ph-conc-2-after-ok", "ph-conc-2-after-undo-undo"), pb(100, B{{2, 0}, {4, 0}}, "ph-conc-3"),
 			db(100, B{{2, 0}}, "ph-srv-seq", "ph-srv-2conn")),
-		Thorough: cat(pb(1500, B{{0, 0}}, "ph-seq-exhaustive-x"), pb(1500, B{{8, 0}}, "ph-conc-2", "ph-conc-2-fail"), pb(1500, B{{4, 0}, {12, 0}}, "ph-conc-3"),
+		Thorough: cat(pb(1500, B{{0, 0}}, "ph-seq-exhaustive-x"), pb(1500, B{{8, 0}, {16, 0}}, "ph-conc-2", "ph-conc-2-fail", "ph-conc-2-after-undo", "ph-conc-2-after-count", "ph-conc-2-after-version",
+			"ph-conc-2-after-faileditem", "ph-conc-2-after-panic", "ph-conc-2-after-ok", "ph-conc-2-after-undo-undo"), pb(1500, B{{4, 0}, {12, 0}}, "ph-conc-3"),
 			db(1500, B{{3, 0}, {4, 0}}, "ph-srv-seq", "ph-srv-2conn"), pb(1500, B{{1, 0}}, "ph-srv-seq", "ph-srv-2conn")),
 	}
 
